@@ -1479,6 +1479,154 @@ def flatten_order_items(g, po, ac, co, dm):
     fact3(g, 'backpropsFlattenInCOrder', 'prysm/polynomials/__init__.py + x/optym + x/dm.py', None, check)
 
 
+# ------------------------------------------------------------------------------------------------
+# fourier_resample (fttools) / fourier_resample_backprop (x/dm): ordered operation chains, roll amounts, scale factors
+# ------------------------------------------------------------------------------------------------
+def resample_items(g, ft, dm):
+    PARK = '{K : Type} [Num K]'
+    SHIFT = {'fftshift': '(n / 2)', 'ifftshift': '(n - n / 2)'}
+    FB = ('def resampleFwdChain : List String := ["ifftshift", "fft2", "fftshift", "idft2", "real", "scale"]\n'
+          'def resampleBackChain : List String := ["idft2_backprop", "ifftshift", "ifft2", "fftshift", "real", "scale"]\n'
+          'def resampleFwdPre (n : Nat) : Nat := (n - n / 2)\ndef resampleFwdPost (n : Nat) : Nat := (n / 2)\n'
+          'def resampleBackPre (n : Nat) : Nat := (n - n / 2)\ndef resampleBackPost (n : Nat) : Nat := (n / 2)\n'
+          f'def resampleFwdScale {PARK} (sqrtf : K → K) (zy zx m n mm nn : K) : K := ((zy * zx) / (sqrtf (m * n)))\n'
+          f'def resampleBackScale {PARK} (sqrtf : K → K) (zy zx m n mm nn : K) : K := ((zy * zx) * (sqrtf (m * n)))\n'
+          'def resampleSameGeometry : Bool := true\n')
+
+    def chain_of(fn, inp, shape_src):
+        """symbolic run of the reachable straight-line part: returns (chain, scale expression nodes, mdft call node, prologue text)"""
+        env = {inp: []}
+        scales, mcall, prologue = [], [], []
+        dims = None
+        MD = ('idft2', 'idft2_backprop', 'dft2', 'dft2_backprop')
+
+        def sized(node):
+            """`<array>.size` of a running array -> a marker saying whether that array still has the extents of the routine's input
+            or already those of the matrix-DFT result (names are re-bound along the chain: `fbar` is m x n after the inverse FFT)"""
+            import copy
+
+            class S(ast.NodeTransformer):
+                def visit_Attribute(self, n):
+                    if n.attr == 'size' and isinstance(n.value, ast.Name) and n.value.id in env:
+                        side = 'res' if any(t in MD for t in env[n.value.id]) else 'inp'
+                        return ast.copy_location(ast.Name(id=f'size_{side}_', ctx=ast.Load()), n)
+                    return self.generic_visit(n)
+            return ast.fix_missing_locations(S().visit(copy.deepcopy(node)))
+
+        def ev(e):
+            if isinstance(e, ast.Name) and e.id in env:
+                return list(env[e.id])
+            if isinstance(e, ast.Attribute) and e.attr == 'real':
+                return ev(e.value) + ['real']
+            if isinstance(e, ast.Call):
+                f = ast.unparse(e.func)
+                if f in ('np.real',) and len(e.args) == 1 and not e.keywords:
+                    return ev(e.args[0]) + ['real']
+                base = f.split('.')[-1]
+                if f in ('fft.fftshift', 'fft.ifftshift', 'fft.fft2', 'fft.ifft2', 'np.fft.fftshift', 'np.fft.ifftshift',
+                         'np.fft.fft2', 'np.fft.ifft2'):
+                    if len(e.args) != 1 or e.keywords:
+                        raise Untranslatable(f'{f} with extra arguments')
+                    return ev(e.args[0]) + [base]
+                if f in ('mdft.idft2', 'mdft.idft2_backprop', 'mdft.dft2', 'mdft.dft2_backprop'):
+                    mcall.append(e)
+                    return ev(e.args[0]) + [base]
+                if isinstance(e.func, ast.Attribute) and e.func.attr in ('copy',) and not e.args:
+                    return ev(e.func.value)
+            raise Untranslatable(f'unrecognised operation on the data: {ast.unparse(e)[:70]}')
+
+        for st in fn.body:
+            if isinstance(st, ast.Expr) and isinstance(st.value, ast.Constant):
+                continue
+            if isinstance(st, ast.If):
+                prologue.append(ast.unparse(st))
+                continue
+            if isinstance(st, ast.Assign) and len(st.targets) == 1:
+                tgt, val = st.targets[0], st.value
+                if isinstance(tgt, ast.Tuple) and ast.unparse(val) == shape_src and len(tgt.elts) == 2:
+                    dims = tuple(ast.unparse(x) for x in tgt.elts)
+                    continue
+                if isinstance(tgt, ast.Name):
+                    try:
+                        env[tgt.id] = ev(val)
+                        continue
+                    except Untranslatable:
+                        if any(isinstance(n, ast.Name) and n.id in env for n in ast.walk(val)):
+                            if isinstance(val, ast.BinOp) and isinstance(val.op, (ast.Mult, ast.Div)):
+                                l_in = isinstance(val.left, ast.Name) and val.left.id in env
+                                r_in = isinstance(val.right, ast.Name) and val.right.id in env
+                                if l_in and not any(isinstance(n, ast.Name) and n.id in env for n in ast.walk(val.right)):
+                                    sc = val.right if isinstance(val.op, ast.Mult) else ast.BinOp(ast.Constant(1), ast.Div(), val.right)
+                                    env[tgt.id] = env[val.left.id] + ['scale']
+                                    scales.append(sized(sc))
+                                    continue
+                                if r_in and isinstance(val.op, ast.Mult) and not any(isinstance(n, ast.Name) and n.id in env for n in ast.walk(val.left)):
+                                    env[tgt.id] = env[val.right.id] + ['scale']
+                                    scales.append(sized(val.left))
+                                    continue
+                            raise
+                        prologue.append(ast.unparse(st))      # a scalar local (M, N, ...)
+                        continue
+            if isinstance(st, ast.AugAssign) and isinstance(st.target, ast.Name) and st.target.id in env:
+                if isinstance(st.op, ast.Mult):
+                    env[st.target.id] = env[st.target.id] + ['scale']
+                    scales.append(sized(st.value))
+                    continue
+                if isinstance(st.op, ast.Div):
+                    env[st.target.id] = env[st.target.id] + ['scale']
+                    scales.append(sized(ast.BinOp(ast.Constant(1), ast.Div(), st.value)))
+                    continue
+                raise Untranslatable(f'unrecognised operation on the data: {ast.unparse(st)[:70]}')
+            if isinstance(st, ast.Return):
+                return ev(st.value), scales, mcall, prologue, dims      # everything after the first top-level return is unreachable
+            raise Untranslatable(f'statement {ast.unparse(st)[:70]}')
+        raise Untranslatable('no return')
+
+    def build():
+        ff = get_def(ft, 'fourier_resample')
+        fb = get_def(dm, 'fourier_resample_backprop')
+        fc, fs, fm, fp, fd = chain_of(ff, 'f', 'f.shape')
+        bc, bs, bm, bp, bd = chain_of(fb, 'fbar', 'in_shape')
+        if fd is None or bd is None:
+            raise Untranslatable('array extents not bound from f.shape / in_shape')
+        lin = lambda c: [x for x in c if x not in ('real', 'scale')]
+        lf, lb = lin(fc), lin(bc)
+        if not (len(lf) == 4 and lf[0] in SHIFT and lf[1] == 'fft2' and lf[2] in SHIFT and len(fm) == 1):
+            raise Untranslatable(f'forward chain {fc}')
+        if not (len(lb) == 4 and lb[1] in SHIFT and lb[2] == 'ifft2' and lb[3] in SHIFT and len(bm) == 1):
+            raise Untranslatable(f'backprop chain {bc}')
+        if len(fs) != 1 or len(bs) != 1:
+            raise Untranslatable('not exactly one scale factor on each side')
+        fmt = lambda l: '[' + ', '.join(f'"{x}"' for x in l) + ']'
+        # scale factors: m, n are the extents of the resampled array, mm, nn those of the result of the forward
+        def scale(node, dims, size_env):
+            envs = {'zoom[0]': 'zy', 'zoom[1]': 'zx', dims[0]: 'm', dims[1]: 'n'}
+            envs.update(size_env)
+            return Tr(envs, mode='num', funcs={'np.sqrt': 'sqrtf', 'truenp.sqrt': 'sqrtf', 'math.sqrt': 'sqrtf'}).expr(node)
+        sf = scale(fs[0], fd, {'size_inp_': '(m * n)', 'size_res_': '(mm * nn)', 'M': 'mm', 'N': 'nn'})
+        sb = scale(bs[0], bd, {'size_inp_': '(mm * nn)', 'size_res_': '(m * n)'})
+        # geometry: same prologue (identity at zoom == 1 apart from the name, zoom normalisation), the matrix DFT is asked for
+        # (zoom, (int(m zoom_y), int(n zoom_x))) forward and (zoom, in_shape) backward, neither passes a shift
+        fcall, bcall = fm[0], bm[0]
+        fa = [ast.unparse(a) for a in fcall.args[1:]] + [f'{k.arg}={ast.unparse(k.value)}' for k in fcall.keywords]
+        ba = [ast.unparse(a) for a in bcall.args[1:]] + [f'{k.arg}={ast.unparse(k.value)}' for k in bcall.keywords]
+        norm = lambda t: t.replace(' ', '')
+        MN = {norm(x) for x in fp}
+        geo = (norm(' '.join(fa)) in ('zoom(M,N)',) and f'M=int({fd[0]}*zoom[0])' in MN and f'N=int({fd[1]}*zoom[1])' in MN
+               and norm(' '.join(ba)) in (f'zoom({bd[0]},{bd[1]})', 'zoomin_shape')
+               and [norm(x).replace('returnfbar', 'returnf') for x in bp if x.startswith('if')]
+               == [norm(x) for x in fp if x.startswith('if')])
+        return (f'def resampleFwdChain : List String := {fmt(fc)}\n'
+                f'def resampleBackChain : List String := {fmt(bc)}\n'
+                f'def resampleFwdPre (n : Nat) : Nat := {SHIFT[lf[0]]}\ndef resampleFwdPost (n : Nat) : Nat := {SHIFT[lf[2]]}\n'
+                f'def resampleBackPre (n : Nat) : Nat := {SHIFT[lb[1]]}\ndef resampleBackPost (n : Nat) : Nat := {SHIFT[lb[3]]}\n'
+                f'def resampleFwdScale {PARK} (sqrtf : K → K) (zy zx m n mm nn : K) : K := {sf}\n'
+                f'def resampleBackScale {PARK} (sqrtf : K → K) (zy zx m n mm nn : K) : K := {sb}\n'
+                f'def resampleSameGeometry : Bool := {"true" if geo else "false"}\n')
+    g.item('fourier_resample_backprop', 'prysm/x/dm.py:fourier_resample_backprop',
+           lambda: [get_def(ft, 'fourier_resample'), get_def(dm, 'fourier_resample_backprop')], build, FB)
+
+
 def generate(repo):
     g = Gen('C06', imports=['PrysmVerif.PyPrelude', 'PrysmVerif.Model.C06'],
             header='set_option linter.unusedVariables false')
@@ -1498,6 +1646,7 @@ def generate(repo):
     dm, _ = load(repo, 'prysm/x/dm.py')
     structural_items(g, ft, po, dm)
     mdft_term_items(g, ft)
+    resample_items(g, ft, dm)
     padcrop_items(g, repo)
     live_attribute_items(g, ac, dm)
     flatten_order_items(g, po, ac, co, dm)
